@@ -72,4 +72,29 @@ CHECKS = {
   "ref": "DESIGN.md §5 C15",
   "note": "trusted: Lean kernel; str.splitlines modelled (compared, not verified); parse_request's terminator stripping is C06",
   "technique": "Lean 4 proof (induction over chunks with a buffer invariant) + exhaustive-segmentation differential"},
+ "C13": {
+  "text": "Lean theorems over the timed model of the writer loop: c13_full_silence (a timeout KEEPALIVE comes exactly one interval after the "
+          "previous write, the interval read when that wait began), c13_gap (after every write followed by a wait with positive interval "
+          "the next write is at most that interval later, up to the horizon), c13_disabled, c13_transparent (non-keepalive lines = the "
+          "submitted messages, in order, at their submission times), c13_monotone — for every time-ordered history and both tie policies. "
+          "Tied by running the real _Sender thread under the scheduler with virtual time and comparing (time, line) sequences.",
+  "ref": "DESIGN.md §5 C13",
+  "note": "trusted: Lean kernel; scheduler shim incl. virtual clock; real timers not modelled (bounds exact in virtual time only)",
+  "technique": "Lean 4 proof (induction over timed event histories) + virtual-time co-simulation of the real writer thread"},
+ "C14": {
+  "text": "Lean theorems c14_first (every interleaving of start(), writer and all reader-side producers: the first message queued/written "
+          "is the credentials message with id 1), c14_others_later, c14_content (via C07's credentials theorems); tied by the Data co-simulation "
+          "(start-up chunks of the starting thread / writer / reader compared in lock-step, request bytes readable before start()) and the "
+          "writers differential of write_credentials; the first wire line checked on every real run.",
+  "ref": "DESIGN.md §5 C14",
+  "note": "trusted: Lean kernel; scheduler shim; Startup.lean's guard ('other producers exist only after the reader started') validated by co-simulation",
+  "technique": "Lean 4 proof (invariant over all interleavings of a start-up model) + lock-step co-simulation"},
+ "C16": {
+  "text": "Lean theorems c16_fifo (lines written that are not keepalives = messages enqueued, in order, none lost or duplicated — from C13's "
+          "writer model), c16_append_only (every step of an item's machine only appends to the outbound sequence), c16_inside (an adapter "
+          "call can end, hence its reply be enqueued, only when the calling worker has no listener enqueue pending). Tied by the Data "
+          "co-simulation (written byte stream vs enqueue events on every run) and the writer co-simulation.",
+  "ref": "DESIGN.md §5 C16",
+  "note": "trusted: Lean kernel; scheduler shim (Queue FIFO); one sendall = one contiguous line is the OS's",
+  "technique": "Lean 4 proof + lock-step co-simulation"},
 }
